@@ -23,8 +23,10 @@ func g5GateConds(b *ssa.BasicBlock) []ssa.Value {
 		if !ok || id.Succs[0] == id.Succs[1] {
 			continue
 		}
-		side0 := id.Succs[0] == d || id.Succs[0].Dominates(d)
-		side1 := id.Succs[1] == d || id.Succs[1].Dominates(d)
+		// a successor that dominates the branching block itself is a back edge to a loop header ("continue"): it
+		// dominates d only because the header does, and says nothing about the side d is on
+		side0 := (id.Succs[0] == d || id.Succs[0].Dominates(d)) && !id.Succs[0].Dominates(id)
+		side1 := (id.Succs[1] == d || id.Succs[1].Dominates(d)) && !id.Succs[1].Dominates(id)
 		if side0 == side1 {
 			continue
 		}
@@ -46,7 +48,7 @@ func g5IsMoveNext(v ssa.Value, seen map[ssa.Value]bool) bool {
 		if core.IsCallTo(x, "github.com/antchfx/xpath", "NodeIterator.MoveNext") {
 			return true
 		}
-		if b, ok := x.Type().Underlying().(*types.Basic); !ok || b.Kind() != types.Bool {
+		if b, ok := x.Type().Underlying().(*types.Basic); !ok || b.Kind() != types.Bool || x.Call.IsInvoke() {
 			return false
 		}
 		fn := g5CalledFunc(x.Call.Value, 0)
@@ -64,7 +66,7 @@ func g5IsMoveNext(v ssa.Value, seen map[ssa.Value]bool) bool {
 		return len(x.Edges) > 0
 	case *ssa.Extract:
 		call, ok := x.Tuple.(*ssa.Call)
-		if !ok {
+		if !ok || call.Call.IsInvoke() {
 			return false
 		}
 		fn := g5CalledFunc(call.Call.Value, 0)
